@@ -77,7 +77,7 @@ def sched_tick_closure(src):
 # indices (in the fixed XGen stream of section (2)) of the programs recorded as finding F65
 XGEN_F65 = {2273, 2837, 2911, 3002, 4936}
 XGEN_X4 = {2706}       # a stateful function called from a closure that is created on every sample
-WITNESS_IDENTIFIED = {"X3", "X4", "W7", "W8", "W9", "P1", "P3", "P4", "B1", "J8", "ML"}    # findings identified by their witness programs only
+WITNESS_IDENTIFIED = {"X3", "X4", "W7", "W8", "W9", "P1", "P3", "P4", "B1", "J8", "ML", "GS"}    # findings identified by their witness programs only
 
 
 def src_classes(src):
